@@ -1,13 +1,13 @@
 package main
 
 import (
-	"sort"
 	"encoding/json"
 	"errors"
 	"fmt"
 	"go/types"
 	"math"
 	"path/filepath"
+	"sort"
 	"strconv"
 	"strings"
 	"syscall"
